@@ -803,3 +803,104 @@ func TestProp_Flows(t *testing.T) {
 		scan(t, w.Rec.Log(), f.secrets, map[string]any{"flows": flows, "backend": backend.String()})
 	})
 }
+
+// TestProp_NodeIdSets: the records of one node ID, loaded as a set, are subject to
+// the same rule as a record loaded on its own - a set holding a record that does not
+// open under the wrapper supplied (none, another one, a transplanted sealed key) does
+// not load, and a set that loads holds exactly what the single loads return.
+func TestProp_NodeIdSets(t *testing.T) {
+	rec := vkit.Rec(prop)
+	vkit.SetRapidChecks(vkit.N(40))
+	wrappers := map[string]nodeenrollment.Option{"none": nil, "A": nodeenrollment.WithStorageWrapper(vkit.NewAead("set-A")), "B": nodeenrollment.WithStorageWrapper(vkit.NewAead("set-B"))}
+	optsOf := func(n string) []nodeenrollment.Option {
+		if wrappers[n] == nil {
+			return nil
+		}
+		return []nodeenrollment.Option{wrappers[n]}
+	}
+	rapid.Check(t, func(t *rapid.T) {
+		native := rapid.Bool().Draw(t, "storeOnceBackEnd")
+		backend := vkit.Inmem
+		if native {
+			backend = vkit.StoreOnce
+		}
+		w := vkit.NewWorld(vkit.WorldConfig{Backend: backend, NodeIdLoader: true, NoRoots: true})
+		defer w.Close()
+		w.NodeID.Native = native
+		ctx := context.Background()
+		k := rapid.IntRange(1, 4).Draw(t, "records")
+		var sealedWith, ids []string
+		for i := 0; i < k; i++ {
+			a := vkit.NewActor(fmt.Sprintf("r%d", i))
+			sw := rapid.SampledFrom([]string{"none", "A", "A", "B"}).Draw(t, "sealedWith")
+			pkix, pkcs8, _ := edKey()
+			_ = pkix
+			ni := &types.NodeInformation{Id: a.KeyID, NodeId: "N", CertificatePublicKeyPkix: a.CertPkix, CertificatePublicKeyType: types.KEYTYPE_ED25519,
+				EncryptionPublicKeyBytes: a.EncPub, EncryptionPublicKeyType: types.KEYTYPE_X25519,
+				ServerEncryptionPrivateKeyBytes: pkcs8[:32], ServerEncryptionPrivateKeyType: types.KEYTYPE_X25519, RegistrationNonce: rnd(32)}
+			if err := ni.Store(ctx, w.Inner, optsOf(sw)...); err != nil {
+				t.Fatalf("store: %v", err)
+			}
+			sealedWith, ids = append(sealedWith, sw), append(ids, a.KeyID)
+		}
+		// now and then the sealed server key of one record is copied into another
+		transplanted := false
+		if k >= 2 && rapid.IntRange(0, 3).Draw(t, "transplant") == 0 {
+			from, to := rapid.IntRange(0, k-1).Draw(t, "from"), rapid.IntRange(0, k-1).Draw(t, "to")
+			if from != to && sealedWith[from] != "none" && sealedWith[from] == sealedWith[to] {
+				src, dst := &types.NodeInformation{Id: ids[from]}, &types.NodeInformation{Id: ids[to]}
+				if w.Inner.Load(ctx, src) == nil && w.Inner.Load(ctx, dst) == nil {
+					dst.ServerEncryptionPrivateKeyBytes = src.ServerEncryptionPrivateKeyBytes
+					if native {
+						_ = w.Inner.Remove(ctx, &types.NodeInformation{Id: ids[to]})
+					}
+					if err := w.Inner.Store(ctx, dst); err != nil {
+						t.Fatalf("store transplanted: %v", err)
+					}
+					transplanted = true
+				}
+			}
+		}
+		w.NodeID.Order["N"] = rapid.Permutation(ids).Draw(t, "order")
+		lw := rapid.SampledFrom([]string{"none", "A", "B"}).Draw(t, "loadedWith")
+		var singles []*types.NodeInformation
+		allOpen := true
+		for _, id := range ids {
+			n, err := types.LoadNodeInformation(ctx, w.Inner, id, optsOf(lw)...)
+			if err != nil {
+				allOpen = false
+				continue
+			}
+			singles = append(singles, n)
+		}
+		set, err := types.LoadNodeInformationSetByNodeId(ctx, w.NodeID, "N", optsOf(lw)...)
+		desc := map[string]any{"records_sealed_with": sealedWith, "set_loaded_with": lw, "a_sealed_key_was_transplanted": transplanted, "every_record_opens_on_its_own": allOpen, "store_once_back_end": native}
+		mixed := !allOpen && len(singles) > 0
+		rec.Case(fmt.Sprintf("node-id-set/all-open=%v/mixed=%v", allOpen, mixed), fmt.Sprint(sealedWith, lw, transplanted), k >= 2, func() any { return desc })
+		switch {
+		case !allOpen && err == nil:
+			got := 0
+			if set != nil {
+				got = len(set.Nodes)
+			}
+			vkit.Violate(t, prop, "C12/node-id-set-loaded-although-a-record-does-not-open", fmt.Sprintf("the set of node ID N loaded without error (%d of %d records) although at least one of its records does not open under the wrapper supplied", got, k), desc)
+		case allOpen && err != nil:
+			vkit.Violate(t, prop, "C12/node-id-set-refused-although-every-record-opens", "every record of the node ID opens on its own, the set does not load: "+err.Error(), desc)
+		case allOpen:
+			if len(set.Nodes) != len(singles) {
+				vkit.Violate(t, prop, "C12/node-id-set-differs-from-single-loads", fmt.Sprintf("the set holds %d records, the single loads %d", len(set.Nodes), len(singles)), desc)
+				return
+			}
+			for _, sn := range set.Nodes {
+				found := false
+				for _, n := range singles {
+					found = found || proto.Equal(sn, n)
+				}
+				if !found {
+					vkit.Violate(t, prop, "C12/node-id-set-differs-from-single-loads", "a record of the set equals none of the single loads (id "+sn.Id+")", desc)
+					return
+				}
+			}
+		}
+	})
+}
